@@ -114,9 +114,43 @@ static scpi_interface_t itf = {on_error, on_write, on_control, on_flush, NULL};
 
 static const scpi_choice_def_t choices[] = {{"BUS", 5}, {"IMMediate", 6}, {"EXTernal", 7}, SCPI_CHOICE_LIST_END};
 
+/* event log of a scenario (DRV_EVENTS=1): the hook events that correspond to actions of ScpiInputLoop.tla */
+static char * evbuf;
+static size_t evlen, evcap;
+static int evon, evfirst;
+static void evf(const char * fmt, ...) __attribute__((format(printf, 1, 2)));
+static void evf(const char * fmt, ...) {
+    va_list ap;
+    if (evlen + 4096 > evcap) { evcap = evcap ? evcap * 2 : (1 << 16); evbuf = realloc(evbuf, evcap); }
+    va_start(ap, fmt);
+    evlen += vsnprintf(evbuf + evlen, evcap - evlen, fmt, ap);
+    va_end(ap);
+}
+static void evbytes(const void * p, long n) {
+    long i;
+    evf("[");
+    for (i = 0; p && i < n && i < 900; i++) evf("%s%d", i ? "," : "", ((const unsigned char *) p)[i]);
+    evf("]");
+}
+static void evlog(int ev, const void * p, long a, long b) {
+    const char * sep = evfirst ? "" : ",";
+    switch (ev) {
+        case SCPI_VE_INPUT_BEGIN: evf("%s[\"ib\",%ld]", sep, a); break;
+        case SCPI_VE_INPUT_OVERRUN: evf("%s[\"ovr\"]", sep); break;
+        case SCPI_VE_INPUT_END: evf("%s[\"ie\",%ld,%ld]", sep, a, b); break;
+        case SCPI_VE_PARSE_BEGIN: evf("%s[\"pb\",", sep); evbytes(p, a); evf("]"); break;
+        case SCPI_VE_PARSE_END: evf("%s[\"pe\",%ld]", sep, a); break;
+        case SCPI_VE_UNIT_BEGIN: evf("%s[\"ub\",%ld,", sep, b); evbytes(p, a); evf("]"); break;
+        case SCPI_VE_UNIT_END: evf("%s[\"ue\",%ld]", sep, a); break;
+        case SCPI_VE_UNIT_INVALID: evf("%s[\"ui\"]", sep); break;
+        default: return;
+    }
+    evfirst = 0;
+}
+
 /* the input-buffer hook of C01: poison the unused tail of the input buffer after every append */
 static void hook(scpi_t * c, int ev, const void * p, long a, long b) {
-    (void) p; (void) a; (void) b;
+    if (evon && c == &ctx) evlog(ev, p, a, b);
 #ifdef HAVE_ASAN
     if (c == &ctx && ibuf) {
         if (ev == SCPI_VE_INPUT_APPENDED && ctx.buffer.position + 1 < ibuf_len)
@@ -313,6 +347,7 @@ int main(int argc, char ** argv) {
     out = fopen(argv[2], "w");
     if (!in || !out) { perror("open"); return 3; }
     scpi_verif_hook = hook;
+    evon = getenv("DRV_EVENTS") != NULL;
     while (fgets(line, sizeof line, in)) {
         size_t n = strlen(line);
         while (n && (line[n - 1] == '\n' || line[n - 1] == '\r')) line[--n] = 0;
@@ -324,7 +359,7 @@ int main(int argc, char ** argv) {
             sscanf(line + 1, "%d %d %d", &bs, &qcap, &heapsize);
             ibuf_len = (size_t) bs; ibuf = malloc(ibuf_len); memset(ibuf, 0x55, ibuf_len);
             equeue = calloc((size_t) qcap, sizeof(scpi_error_t));
-            started = 0; first_call = 1; id++;
+            started = 0; first_call = 1; id++; evlen = 0; evfirst = 1;
             fprintf(out, "{\"id\":%ld,\"calls\":[", id);
         } else if (line[0] == 'T' && ntable < MAXT) {
             int tag; char pat[256];
@@ -396,7 +431,9 @@ int main(int argc, char ** argv) {
                 SCPIDEFINE_free(&ctx.error_info_heap, e.device_dependent_info, false);
 #endif
             }
-            fprintf(out, "]}\n");
+            fprintf(out, "]");
+            if (evon) { fprintf(out, ",\"ev\":["); fwrite(evbuf, 1, evlen, out); fprintf(out, "]"); }
+            fprintf(out, "}\n");
             fflush(out);
             free_scenario();
         }
